@@ -1,5 +1,6 @@
 import Thanos.Lemmas.Downsample
 import Thanos.Lemmas.DownsampleRaw
+import Thanos.Lemmas.DownsampleAggrLoop
 import Thanos.Generated.Facts
 /-
   C36 — Raw downsampling aggregates are exact.
@@ -293,6 +294,79 @@ theorem C36_readback (r : Int) (hr : 0 < r) (data : List Raw) (nc : Nat) (hnc : 
   · intro c hcm; obtain ⟨ts, p1, p2, p3, p4, _, p6, p7⟩ := hsh c hcm; exact ⟨ts, p2, p6, p7⟩
   · intro c hcm; obtain ⟨ts, p1, p2, p3, p4, _, p6, p7⟩ := hsh c hcm; exact ⟨ts, p3, p6, p7⟩
   · intro c hcm; obtain ⟨ts, p1, p2, p3, p4, _, p6, p7⟩ := hsh c hcm; exact ⟨ts, p4, p6, p7⟩
+
+/-- **C36, well-formedness of the result** (what re-downsampling, C38, relies on): per chunk the
+    four aggregates are non-empty and share their timestamps, min/max values are finite; over the
+    series the timestamps strictly increase, are ≥ 0 and below MaxInt64. -/
+theorem C36_wellformed (r : Int) (hr : 0 < r) (data : List Raw) (nc : Nat) (hnc : 0 < nc) (ok : RawOK data) :
+    ∃ chunks, downsampleRaw data r nc = some chunks ∧ WFChunks chunks := by
+  obtain ⟨chunks, hc, hflat, hne, _, hmap⟩ := downsampleRaw_batches r hr data nc hnc ok.sorted ok.nonneg
+  obtain ⟨chunks', hc', hsh, hord⟩ := C36_chunks_ordered r hr data nc hnc ok
+  rw [hc] at hc'; cases hc'
+  have hshape := chunk_shape hr (nc := nc) ok hflat hne
+  have hbf := batch_facts (r := r) (nc := nc) ok hflat hne
+  -- bounds of every timestamp of a chunk
+  have hrange : ∀ c ∈ chunks, ∀ t ∈ c.count.map (·.1), 0 ≤ t ∧ t < maxInt64 := by
+    refine forall_of_map_some (fun b => floatBatch b r) (fun c => ∀ t ∈ c.count.map (·.1), 0 ≤ t ∧ t < maxInt64) _ _ hmap ?_
+    intro b hb c hfc t ht
+    obtain ⟨ts, t0, v0, hh, p1, _, _, _, _, p6, _, _, _⟩ := hshape b hb c hfc
+    obtain ⟨_, h0, h64, _, _, _, lt, lv, _, hl, hlt⟩ := hbf b hb
+    have hb6 := p6 t (p1 ▸ ht)
+    have h1 : 0 ≤ t0 := h0 (t0, v0) (List.mem_of_mem_head? (by rw [hh]; rfl))
+    have h2 : lastT b < maxInt64 := hlt ▸ h64 _ (List.mem_of_getLast? hl)
+    omega
+  refine ⟨chunks, hc, ⟨?_, ?_, ?_⟩⟩
+  · refine forall_of_map_some (fun b => floatBatch b r) WFChunk _ _ hmap ?_
+    intro b hb c hfc
+    obtain ⟨ts, t0, v0, hh, p1, p2, p3, p4, _, _, _, p8, _⟩ := hshape b hb c hfc
+    obtain ⟨hs, h0, _, hf, _, _, lt, lv, _, hl, hlt⟩ := hbf b hb
+    obtain ⟨c', hc', _, _, h3, h4⟩ := C36_batch r hr b lt lv hl h0 hs hf
+    rw [hfc] at hc'; cases hc'
+    have hfinrun : ∀ g ∈ runs r b, ∀ q ∈ g.2, Finite q.2 := by
+      intro g hg q hq
+      apply hf
+      have : q ∈ (runs r b).flatMap (·.2) := List.mem_flatMap.mpr ⟨g, hg, hq⟩
+      rwa [runs_flatten] at this
+    refine ⟨?_, p2.trans p1.symm, p3.trans p1.symm, p4.trans p1.symm, ?_, ?_⟩
+    · intro he
+      rw [he] at p1
+      rw [← p1] at p8
+      simp at p8
+    · intro p hp
+      have : (p.1, some p.2) ∈ c.min.map (fun p => (p.1, some p.2)) := List.mem_map.mpr ⟨p, hp, rfl⟩
+      rw [h3] at this
+      obtain ⟨g, hg, hge⟩ := List.mem_map.mp this
+      simp only [Prod.mk.injEq] at hge
+      have hm := List.min?_mem hge.2
+      obtain ⟨q, hq, hqv⟩ := List.mem_map.mp hm
+      rw [← hqv]; exact (hfinrun g hg q hq).2
+    · intro p hp
+      have : (p.1, some p.2) ∈ c.max.map (fun p => (p.1, some p.2)) := List.mem_map.mpr ⟨p, hp, rfl⟩
+      rw [h4] at this
+      obtain ⟨g, hg, hge⟩ := List.mem_map.mp this
+      simp only [Prod.mk.injEq] at hge
+      have hm := List.max?_mem hge.2
+      obtain ⟨q, hq, hqv⟩ := List.mem_map.mp hm
+      rw [← hqv]; exact (hfinrun g hg q hq).1
+  · rw [List.flatMap_def, List.map_flatten, List.pairwise_flatten]
+    constructor
+    · intro l hl
+      simp only [List.map_map, List.mem_map, Function.comp_apply] at hl
+      obtain ⟨c, hcm, rfl⟩ := hl
+      obtain ⟨ts, p1, _, _, _, p5, _, _⟩ := hsh c hcm
+      rw [p1]; exact p5
+    · rw [List.pairwise_map, List.pairwise_map]
+      refine hord.imp_of_mem ?_
+      intro c1 c2 hc1 hc2 hlt x hx y hy
+      obtain ⟨ts1, e1, _, _, _, s1, hh1, hl1⟩ := hsh c1 hc1
+      obtain ⟨ts2, e2, _, _, _, s2, hh2, hl2⟩ := hsh c2 hc2
+      have b1 := (sorted_bounds ts1 _ _ s1 hh1 hl1 x (e1 ▸ hx)).2
+      have b2 := (sorted_bounds ts2 _ _ s2 hh2 hl2 y (e2 ▸ hy)).1
+      omega
+  · intro t ht
+    obtain ⟨p, hp, rfl⟩ := List.mem_map.mp ht
+    obtain ⟨c, hcm, hpc⟩ := List.mem_flatMap.mp hp
+    exact hrange c hcm p.1 (List.mem_map.mpr ⟨p, hpc, rfl⟩)
 
 /-- Regenerated obligations: the conditions and expressions of the source that the model
     transliterates (a change of any of them breaks this theorem at `lake build` time). -/
